@@ -222,7 +222,7 @@ def main():
 
     # ---------------------------------------------------------------- 1. every cell down to DEPTH
     depth = dict(DEPTH)
-    kids_depth = dict(DEPTH) if thorough else {16: 2, 32: 1, 64: 1}
+    kids_depth = dict(DEPTH) if thorough else {16: 3, 32: 2, 64: 1}
     n_cells = n_inrange = 0
     for base in (16, 32, 64):
         cs = CFG[base]['charset']
@@ -264,7 +264,7 @@ def main():
     ck.cov['classes']['cells_in_range'] = n_inrange
 
     # ---------------------------------------------------------------- 2. random coordinates, lengths 1..12
-    n_rand = 30000 if thorough else 1500
+    n_rand = 30000 if thorough else 5000
     specials_x = [-180.0, 180.0, 0.0, 90.0, -90.0, 45.0, 179.99999999999997, -179.99999999999997, 11.25, 135.0]
     specials_y = [-90.0, 90.0, 0.0, 45.0, -45.0, 5.625, 89.99999999999999, -89.99999999999999]
     for _ in range(n_rand):
